@@ -30,10 +30,13 @@ THEOREMS = [
     "complex_zero_iff", "flush_eq", "flush_mono", "flush_collapse", "flush_normal_step", "flush_unspecified",
     "ulp_normal", "ulp_subnormal", "ulp_next", "ulp_next_max", "ulp_prev", "ulp_zero", "ulp_neg", "ulp_inf", "ulp_nan",
     "ulp_eq_old_plus_branch", "ulp_old_subnormal_is_zero", "ulp_regression_binary64", "ulp_regression_binary16",
+    "ulp_next_ieee_of", "ulp_finite", "ulp_next_ieee", "ulp_prev_ieee",
 ]
 SEARCHED = [
-    "IEEE addition: x + ulp(x) is computed by hardware/NumPy; the theorems state the exact sum is the neighbour's value "
-    "(and 2^(emax+1) at max), the identity on the real float addition is checked by search",
+    "IEEE addition: x + ulp(x) is computed by hardware/NumPy; the theorems state the exact sum is the neighbour's value (and 2^(emax+1) "
+    "at max) and, through the softfloat addition proved correctly rounded (ulp_next_ieee / ulp_prev_ieee), that the IEEE sum / difference of "
+    "the patterns IS the neighbour; that NumPy's addition is the softfloat's is validated each run (fav/softcheck.py) and the identity on the "
+    "real float addition is also checked by search",
     "list / ndarray dispatch branches of diff_ulp (element-wise maps of the scalar function) are not modelled",
 ]
 TRUSTED = [
@@ -421,8 +424,32 @@ def run(ctx):
     ctx.rule = ("one case = one call of the real diff_ulp/ulp (or numpy.nextafter/decode tie) on given bit patterns; float16 unary and "
                 "neighbour cases are exhaustive; non-trivial = the arguments are not bit-identical and neither is NaN/inf (diff_ulp) or "
                 "the argument is finite non-zero (ulp and ties); distinct by (operation, format, flush, patterns)")
-    broken = ctx.lean_stage(["FAVerif.Props.C14"], THEOREMS)
+    broken = ctx.lean_stage(["FAVerif.Props.C14", "FAVerif.Props.C14Ieee"], THEOREMS)
     npx = NP()
+    # the IEEE-addition theorems (Props/C14Ieee.lean) are about the softfloat FP.add / FP.sub: compare it with the machine's addition on
+    # exactly the operand pairs the identities use — (x, ulp(x)) with ulp computed by the REAL utils.ulp — float16: every finite x
+    from .. import softcheck
+
+    sc_cases = []
+    for w in (16, 32, 64):
+        p_, ew_ = {16: (11, 5), 32: (24, 8), 64: (53, 11)}[w]
+        sign, inf = 1 << (w - 1), ((1 << ew_) - 1) << (p_ - 1)
+        if w == 16:
+            mags = list(range(inf))
+        else:
+            mags = sorted({m for m in softcheck.special_patterns(w) if m < inf} | {ctx.rng.randrange(inf) for _ in range(ctx.scale(1500, 20000))}
+                          | {(e << (p_ - 1)) + d for e in range(0, (1 << ew_) - 1, max(1, (1 << ew_) // 64)) for d in (0, 1, (1 << (p_ - 1)) - 1)})
+        for m in mags:
+            for x in (m, m | sign):
+                u = npx.call(npx.utils.ulp, npx.scalar(w, x))
+                if isinstance(u, str):
+                    continue
+                sc_cases.append((w, "sub" if x & sign and m else "add", (x, npx.bits(w, u))))
+    n_sc, sc_bad = softcheck.run_cases(ctx, sc_cases)
+    ctx.obligation(f"softfloat add/sub == numpy on {n_sc} (x, ulp(x)) operand pairs (float16: every finite x)", not sc_bad, kind="validation")
+    ctx.notes["softcheck_ulp_pairs"] = n_sc
+    if sc_bad:
+        broken.append(ctx.broken("correspondence:Soft-vs-numpy(x, ulp x)", json.dumps(sc_bad[:5])))
     C = Clauses(npx)
     rng = ctx.rng
 
@@ -741,6 +768,6 @@ LEVEL_TEXT = ("Proof. Theorems (Lean kernel; every format with p >= 2, ew >= 2; 
               "d4402b6) returned +0 on every subnormal (regression theorems about ulpOld). The model is a hand port tied by "
               "correspondence (float16 exhaustive).")
 LEVEL_NOTE = ("Trusted: Lean kernel (axioms propext, Classical.choice, Quot.sound); the hand model Models/Ulp.lean and the meaning of patterns "
-              "(decode/ord/nextUp), both validated against the real code / NumPy each run; IEEE addition for x + ulp(x) is exercised by search, "
-              "the theorem states the exact sum.")
+              "(decode/ord/nextUp), both validated against the real code / NumPy each run; IEEE addition: the softfloat FP.add/FP.sub (proved correctly rounded; compared with the machine's "
+              "arithmetic each run) carry the ulp identities to the computed x + ulp(x) / x - ulp(x) (Props/C14Ieee.lean); also exercised by search.")
 TECHNIQUE = "Lean 4 proof over a bit-pattern model generic in the format + line-protocol correspondence (float16 exhaustive) + nextafter-counting search"
